@@ -187,6 +187,8 @@ def run(qualnames, timeout_ms=20000, jobs=None, dump=False):
             continue
         r = _verify_one((q, None, dump))
         obs = r.pop("_obs", [])
+        if os.environ.get("PYVC_ONLY"):       # debugging aid: discharge only the obligations whose name matches
+            obs = [ob for ob in obs if os.environ["PYVC_ONLY"] in ob.name]
         for ob in obs:
             index.append((r, ob))
             _ALL.append(ob)
